@@ -158,7 +158,7 @@ func c20Run(w *core.Worker, ci int, hsql []string, kind func(int) string, gaps [
 		hsql[k] = strings.ReplaceAll(hsql[k], "{DIR}", dir)
 	}
 	_ = os.WriteFile(filepath.Join(dir, "u.csv"), []byte("id\n1\n2\n3\n101\n102\n103\n104\n105\n106\n107\n108\n109\n"), 0644)
-	s, err := core.NewSess(core.SessOpts{Dir: dir, Quiet: true, WaitTimeout: 0.3})
+	s, err := core.NewSess(core.SessOpts{Dir: dir, Quiet: true, WaitTimeout: 10})
 	if err != nil {
 		w.Inconclusive(err.Error())
 		return
